@@ -30,11 +30,13 @@ type world struct {
 	ops                  []opT
 	nPods, nNodes, nJobs int64
 	pgChurn              bool
+	prios                map[int64]*cachectl.PrioSpec
+	prioShare            int // percent of steps that are PriorityClass notifications
 }
 
 func newWorld(r *vh.Rng) *world {
 	return &world{r: r, pods: map[int64]*cachectl.PodSpec{}, nodes: map[int64]*cachectl.NodeX{}, pgs: map[int64]*cachectl.PGSpec{},
-		queues: map[int64]bool{}, ack: map[int64]bool{}, gone: map[int64]bool{}, nPods: int64(r.Range(2, 6)), nNodes: int64(r.Range(1, 3)), nJobs: int64(r.Range(1, 3))}
+		queues: map[int64]bool{}, ack: map[int64]bool{}, gone: map[int64]bool{}, prios: map[int64]*cachectl.PrioSpec{}, prioShare: 5, nPods: int64(r.Range(2, 6)), nNodes: int64(r.Range(1, 3)), nJobs: int64(r.Range(1, 3))}
 }
 
 func (w *world) emit(o opT) { w.ops = append(w.ops, o) }
@@ -91,6 +93,10 @@ func (w *world) advancePod(p *cachectl.PodSpec) {
 
 func (w *world) step(cycle bool, nodeChurn int) {
 	r := w.r
+	if r.Chance(w.prioShare, 100) {
+		w.prioStep()
+		return
+	}
 	if cycle && r.Chance(1, 5) { // the cycle works between the notifications
 		w.cycleOp()
 		return
@@ -178,6 +184,10 @@ func (w *world) step(cycle bool, nodeChurn int) {
 		g.Min = int64(r.Range(0, 3))
 		g.Conds = int64(r.Range(0, 2)) // conditions written back by earlier cycles
 		g.Ann = r.Chance(1, 2)
+		g.Class = 0
+		if r.Chance(1, 2) {
+			g.Class = int64(r.Range(1, 4)) // class 4 never exists
+		}
 		w.emit(opT{Code: 5, PG: *g})
 	case k < 83: // PodGroup delete
 		id := 1 + int64(r.Range(1, int(w.nJobs)))
@@ -203,6 +213,28 @@ func (w *world) step(cycle bool, nodeChurn int) {
 		}
 		w.cycleOp()
 	}
+}
+
+// PriorityClass notifications: value changes, globalDefault toggles (also two defaults at
+// once, which the admission plugin normally prevents but a race can produce), deletes
+func (w *world) prioStep() {
+	r := w.r
+	id := int64(r.Range(1, 3))
+	p, ok := w.prios[id]
+	if ok && r.Chance(1, 4) {
+		delete(w.prios, id)
+		w.emit(opT{Code: 16, A: []int64{id}})
+		return
+	}
+	if !ok {
+		p = &cachectl.PrioSpec{ID: id, Value: vh.Pick(r, []int64{5, 10, 10, 100}), Global: r.Chance(1, 2)}
+		w.prios[id] = p
+	} else if r.Chance(1, 2) {
+		p.Global = !p.Global
+	} else {
+		p.Value = vh.Pick(r, []int64{1, 5, 10, 100, 1000})
+	}
+	w.emit(opT{Code: 15, Prio: *p})
 }
 
 // what a scheduling cycle does between two notifications
@@ -331,7 +363,7 @@ func describe(ops []opT) any {
 		case 4:
 			out = append(out, fmt.Sprintf("delnode n%d", o.A[0]))
 		case 5:
-			out = append(out, fmt.Sprintf("pg j%d uid=%d q=%d min=%d conds=%d ann=%v", o.PG.ID, o.PG.UID, o.PG.Queue, o.PG.Min, o.PG.Conds, o.PG.Ann))
+			out = append(out, fmt.Sprintf("pg j%d uid=%d q=%d min=%d conds=%d ann=%v class=%d", o.PG.ID, o.PG.UID, o.PG.Queue, o.PG.Min, o.PG.Conds, o.PG.Ann, o.PG.Class))
 		case 6:
 			out = append(out, fmt.Sprintf("delpg j%d", o.A[0]))
 		case 7:
@@ -351,6 +383,10 @@ func describe(ops []opT) any {
 			out = append(out, "snapshot+mutate")
 		case 14:
 			out = append(out, fmt.Sprintf("api-delete t%d (notification later)", o.A[0]))
+		case 15:
+			out = append(out, fmt.Sprintf("prio pc%d value=%d globalDefault=%v", o.Prio.ID, o.Prio.Value, o.Prio.Global))
+		case 16:
+			out = append(out, fmt.Sprintf("delprio pc%d", o.A[0]))
 		}
 	}
 	return out
@@ -443,6 +479,25 @@ func gen(rng *vh.Rng, n int, emit func(id string, sel int, in []int64, kind stri
 	}
 	emit("snapshot-podgroup-conditions", 1, encCase(pc), "fixed", true, describe(pc))
 
+	// PriorityClass witnesses: a job without priorityClassName gets the default priority in Snapshot()
+	base := []opT{{Code: 7, A: []int64{1}}, {Code: 5, PG: cachectl.PGSpec{ID: 2, UID: 1, Queue: 1, Min: 1}},
+		{Code: 5, PG: cachectl.PGSpec{ID: 3, UID: 2, Queue: 1, Min: 1, Class: 2}}}
+	fin := []opT{{Code: 10}, {Code: 9}}
+	pw := func(name string, mid ...opT) {
+		ops := append(append(append([]opT{}, base...), mid...), fin...)
+		emit(name, 1, encCase(ops), "fixed", true, describe(ops))
+		emit(name+"/build", 2, encCase(ops), "fixed", true, describe(ops))
+	}
+	pcl := func(id, v int64, g bool) opT {
+		return opT{Code: 15, Prio: cachectl.PrioSpec{ID: id, Value: v, Global: g}}
+	}
+	pw("prio-default-switched-off", pcl(1, 50, true), pcl(1, 50, false))
+	pw("prio-default-value-updated", pcl(1, 50, true), pcl(1, 70, true))
+	pw("prio-two-defaults-later-deleted", pcl(1, 10, true), pcl(2, 20, true), opT{Code: 16, A: []int64{2}})
+	pw("prio-two-defaults-reverse-order", pcl(2, 20, true), pcl(1, 10, true))
+	pw("prio-default-deleted", pcl(1, 10, true), pcl(2, 20, false), opT{Code: 16, A: []int64{1}})
+	pw("prio-non-default-global-deleted", pcl(2, 20, true), pcl(1, 10, true), opT{Code: 16, A: []int64{2}})
+
 	for i := 0; i < n; i++ {
 		r := rng.Fork()
 		w := newWorld(r)
@@ -452,6 +507,13 @@ func gen(rng *vh.Rng, n int, emit func(id string, sel int, in []int64, kind stri
 		case i%10 < 3:
 		case i%10 < 5:
 			kind, churn = "node-churn", 14
+		case i%10 == 6:
+			// PriorityClass churn around PodGroups with and without a class name, queues present early
+			kind = "prio-churn"
+			w.prioShare = 45
+			w.queues[1], w.queues[2] = true, true
+			w.emit(opT{Code: 7, A: []int64{1}})
+			w.emit(opT{Code: 7, A: []int64{2}})
 		case i%10 < 6:
 			// one job, PodGroup deleted and re-created (new uid) around pod adds / deletes, few drains:
 			// every branch of processCleanupJob (job gone, PgUID mismatch, not terminated => retry)
